@@ -202,21 +202,23 @@ func errClass(e string) string {
 	return "error"
 }
 
-func depSig(d *DepDef) string {
-	n := 0
-	if d.Condition != "" {
-		n = len(strings.Split(d.Condition, ","))
-	}
-	return fmt.Sprintf("cond%d-tags%d", n, len(d.Tags))
-}
-
 // judge runs one case on Helm and compares with the reference.
 func judge(cs *Case) (ps []problem, m *model, obs observed) {
 	m = reference(cs)
 	rej := rejectSet(cs, m)
 	obs = runHelm(cs, rej)
 	ps = compare(cs, m, obs)
-	if cs.Install && cs.LiveSchema == "" {
+	if len(ps) == 1 && ps[0].Cat == "error" && ps[0].Detail == "schema-rejected" {
+		// Why was a rejecting schema consulted? Look again without the
+		// schemas: if the chart set is wrong, that is the failure to report.
+		if again := compare(cs, m, runHelm(cs, nil)); len(again) > 0 && (again[0].Cat == "enable" || again[0].Cat == "alias") {
+			for i := range again {
+				again[i].Msg += " [first seen as: " + ps[0].Msg + "]"
+			}
+			ps = again
+		}
+	}
+	if cs.Install && cs.LiveSchema == "" && len(ps) == 0 {
 		obs.Install = runInstall(cs, rej)
 		ps = append(ps, compareInstall(m, obs.Install)...)
 	}
@@ -268,7 +270,7 @@ func compare(cs *Case, m *model, obs observed) (ps []problem) {
 		}
 		dir := f[:strings.Index(f, "/templates/")]
 		if n, ok := byPath[dir]; ok {
-			ps = append(ps, problem{"enable", n.dotted(), "rendered-though-disabled/" + role(n) + "/" + m.reason[firstOff(m, n)] + "/" + depSig(firstOff(m, n).dep),
+			ps = append(ps, problem{"enable", n.dotted(), "rendered-though-disabled/" + m.reason[firstOff(m, n)],
 				fmt.Sprintf("template %s was rendered but dependency %s is disabled (%s)", f, firstOff(m, n).dotted(), m.reason[firstOff(m, n)])})
 		} else {
 			ps = append(ps, problem{"alias", dir, "unexpected-path", fmt.Sprintf("template %s was rendered under a path no dependency goes by", f)})
@@ -276,9 +278,15 @@ func compare(cs *Case, m *model, obs observed) (ps []problem) {
 	}
 	for f, n := range wantFiles {
 		if !got[f] {
-			ps = append(ps, problem{"enable", n.dotted(), "missing-though-enabled/" + role(n) + "/" + reasonOf(m, n) + "/" + sigOf(n),
+			if n.parent != nil && !got[n.parent.fullPath()+"/templates/probe.yaml"] {
+				continue // follows from the missing parent
+			}
+			ps = append(ps, problem{"enable", n.dotted(), "missing-though-enabled/" + reasonOf(m, n),
 				fmt.Sprintf("template %s is missing but %s is enabled (%s)", f, n.dotted(), reasonOf(m, n))})
 		}
+	}
+	if len(ps) > 0 {
+		return ps // a wrong set of charts makes every other comparison a consequence
 	}
 	if !equalStrings(obs.CRDs, wantCRDs) {
 		ps = append(ps, problem{"crd", cs.Root.Name, "crd-set", fmt.Sprintf("CRDs Helm would install %v, want exactly those of the enabled charts %v", obs.CRDs, wantCRDs)})
@@ -335,13 +343,6 @@ func reasonOf(m *model, n *inst) string {
 		return "root"
 	}
 	return m.reason[n]
-}
-
-func sigOf(n *inst) string {
-	if n.dep == nil {
-		return "root"
-	}
-	return depSig(n.dep)
 }
 
 func equalStrings(a, b []string) bool {
